@@ -4,6 +4,7 @@
 package gen
 
 import (
+	"os"
 	"strings"
 
 	"pgregory.net/rapid"
@@ -365,7 +366,39 @@ func Any(t *rapid.T, label string) string {
 // mixtures
 
 // Input is C01's input mixture: G-url 35 % / G-wpt 30 % / G-soup 25 % / G-any 10 %.
+// SizeSteps: repetition counts on both sides of the sizes at which implementations switch
+// representation or algorithm (small-array fast paths, 8/16-bit counters, pre-sized buffers, chunked
+// loops). The larger steps are drawn in the thorough tier only (a 4097-segment input costs as much as
+// thousands of ordinary cases).
+var SizeSteps = []int{7, 8, 9, 12, 13, 15, 16, 17, 31, 32, 33, 63, 64, 65, 127, 128, 129, 253, 254, 255, 256, 257}
+var sizeStepsThorough = []int{511, 512, 513, 1023, 1024, 1025, 4095, 4096, 4097}
+
+var sizedShapes = [][3]string{
+	{"http://h", "/a", ""}, {"http://h", "/a", "/../x"}, {"http://h/", "../", "x"}, {"foo://h", "/b", "?q#f"}, {"file://", "/c", ""}, {"http://h", "/.", "/x"}, {"http://h", "//", "x"},
+	{"http://", "a.", "com/"}, {"http://", "a", ".com/"}, {"http://", "1.", "1/"}, {"foo://", "h", "/"}, {"http://u", "u", "@h/"}, {"http://u:", "p", "@h/"}, {"http://", "@", "h/"},
+	{"http://h/?x=0", "&a=1", ""}, {"http://h/?", "a", "=b"}, {"http://h/?", "&", "a"}, {"http://h/?", "%41", ""}, {"http://h/#", "f", ""}, {"http://h/", "é", ""}, {"http://h/", "%", ""}, {"http://h/", "\t", "x"},
+	{"a:", "b", ""}, {"a:", " ", "?q"}, {"", "a", "://h/"}, {"http://h:", "0", "80/"}, {"http://[", "1:", ":]/"}, {"", " ", "http://h/"}, {"http://h/", " ", ""}, {"", "../", ""}, {"", "a/", ""}, {"?", "a=b&", ""}, {"#", "f", ""},
+}
+
+func sizeStep(t *rapid.T, label string) int {
+	steps := SizeSteps
+	if os.Getenv("VERIF_TIER") == "thorough" && rapid.IntRange(0, 3).Draw(t, label+".big") == 0 {
+		steps = sizeStepsThorough
+	}
+	return steps[rapid.IntRange(0, len(steps)-1).Draw(t, label+".k")]
+}
+
+// Sized draws prefix + unit×k + suffix with k from SizeSteps: inputs of the size classes that random
+// small inputs never reach.
+func Sized(t *rapid.T, label string) string {
+	sh := sizedShapes[rapid.IntRange(0, len(sizedShapes)-1).Draw(t, label+".shape")]
+	return sh[0] + strings.Repeat(sh[1], sizeStep(t, label)) + sh[2]
+}
+
 func Input(t *rapid.T, label string) string {
+	if rapid.IntRange(0, 299).Draw(t, label+".sized") == 0 {
+		return Sized(t, label)
+	}
 	k := rapid.IntRange(0, 19).Draw(t, label+".mix")
 	switch {
 	case k < 7:
@@ -455,6 +488,10 @@ var SetterPools = [spec.NumSetters][]string{protoVals, userVals, userVals, hostV
 // SetterValue draws a value for setter number which: own pool 55 %, WPT new_values 15 %, another
 // setter's pool (cross-component strings) 10 %, soup 15 %, arbitrary 5 %.
 func SetterValue(t *rapid.T, label string, which int) string {
+	if rapid.IntRange(0, 299).Draw(t, label+".sized") == 0 {
+		unit := pick(t, label+".unit", []string{"a", "/a", "a.", "&a=1", "%41", "/..", "0", "é", " ", "@", ":"})
+		return strings.Repeat(unit, sizeStep(t, label))
+	}
 	k := rapid.IntRange(0, 19).Draw(t, label+".mix")
 	switch {
 	case k < 11:
